@@ -71,6 +71,8 @@ func (o *Options) ServerOptions() []string {
 	}
 	if o.Recurse() {
 		argstr += "r"
+	} else if o.XferDirs() >= 2 {
+		argstr += "d"
 	}
 	if o.AlwaysChecksum() {
 		argstr += "c"
